@@ -119,6 +119,51 @@ def run_monitored(item):
                         break
     return found[:3], nblocks, st[0] + 1 + 2 * ndiff, len(nd)
 
+def run_overlap(item):
+    """the success exit again, under the buffer placements of C11 (dest against src at every offset, auxiliary inputs inside / straddling
+    the output): overlap-specific code paths (temporary copies made only when buffers collide) must not leave the secret in released memory"""
+    import C11
+    fname, case = item
+    fn = cat.CAT[fname]
+    L = common.lib(CFG)
+    snap = (ctypes.c_ubyte * SNAP)()
+    stats = (ctypes.c_long * 8)()
+    want = cat.run(L, fn, case)
+    nd = needles(fname, case, want)
+    found = []; n = 0; nblocks = 0
+    with vf.Arena(L) as A:
+        arena = A.buf(C11.ARENA, 0x5C)
+        ov = fn.overlap; k = 0
+        for pl in C11.placements(fn, case, 'quick'):
+            if not C11.valid_placement(fn, case, pl):
+                continue
+            # quick selection of C11's list: dest - src in {0, +-1, +-8, +-16, +-32} with every auxiliary position, every 4th of the rest
+            delta = pl[ov['dest']] - pl[ov['src']]; k += 1
+            if not (abs(delta) in (0, 1, 8, 16, 32) or (len(pl) == 2 and k % 4 == 0)):
+                continue
+            n += 1
+            C11.ctypes_fill(arena)
+            place = {name: (arena, off) for name, off in pl.items()}
+            L.dll.vh_mon_start(ctypes.c_long(0), snap, ctypes.c_size_t(SNAP))
+            try:
+                res = cat.run(L, fn, case, place=place, A=A)
+            finally:
+                L.dll.vh_mon_stop(stats); L.dll.vh_mon_reap()
+            raw = bytes(snap[:stats[4]]); off = 0; bi = 0
+            while off < len(raw):
+                ln = struct.unpack_from('<Q', raw, off)[0]; b = raw[off + 8:off + 8 + ln]; off += 8 + ln; nblocks += 1
+                for i in range(0, len(b) - 7):
+                    if b[i:i + 8] in nd:
+                        rel = {k: v - C11.BASE for k, v in pl.items()}
+                        found.append('placement %s (offsets relative to src): released block %d (%d octets) holds %s at offset %d' % (rel, bi, len(b), nd[b[i:i + 8]], i))
+                        break
+                bi += 1
+                if found:
+                    break
+            if found:
+                break
+    return found, nblocks, n, len(nd)
+
 _arena = None
 def once2(L, fname, case, snap, stats):
     """one monitored execution whose library allocations are served from a private bump arena (identical addresses in
@@ -213,7 +258,29 @@ def sub(tier, what, out):
         for m in found:
             what = m.split(' holds ')[1].split('[')[0] if ' holds ' in m else 'x'
             viol.append({'key': 'wipe:%s:%s' % (f, what.strip()), 'rec': rec, 'msg': '%s: %s  [%s]' % (f, m, cat.short(c))})
-    json.dump({'viol': viol, 'blocks': nblocks, 'runs': nruns, 'calls': len(cs), 'needles': nneedles, 'fns': sorted(fns)}, open(out, 'w'))
+    # overlap placements (C11's enumeration) of the secret-taking functions whose headers allow overlapping buffers
+    oc = []
+    seenf = {}
+    for f, c in corpora.all_cases('quick'):
+        fn = cat.CAT[f]
+        if getattr(fn, 'overlap', None) and fn.secrets and getattr(fn, 'impl', None) is None and fn.ref is not None and seenf.get(f, 0) < (2 if tier == 'quick' else 6):
+            sz = sum(len(v) for v in c.values() if isinstance(v, (bytes, bytearray)))
+            if 16 <= sz <= 160 and (fn.ref(c) or {}).get('ret') == 0 and all(c.get(a) is not None for a in fn.overlap.get('aux', [])):
+                seenf[f] = seenf.get(f, 0) + 1; oc.append((f, c))
+    res = vf.pmap(run_overlap, oc, case_timeout=600)
+    nov = 0
+    for (f, c), r in zip(oc, res):
+        rec = {'cfg': CFG, 'kind': 'wipe-overlap', 'fn': f, 'case': cat.enc_case(c)}
+        if isinstance(r, dict):
+            if CFG == 'asan':
+                k, m = C07.classify(r.get('stderr', '') or r.get('harness_error', '') or r.get('crash', ''))
+                viol.append({'key': 'wipe-overlap:%s:%s' % (k, f), 'rec': rec, 'msg': '%s under overlap placements: %s [%s]' % (f, m, cat.short(c))})
+            continue
+        found, nb, n, nn = r
+        nblocks += nb; nruns += n; nov += n; fns.add(f)
+        for m in found:
+            viol.append({'key': 'wipe-overlap:%s' % f, 'rec': rec, 'msg': '%s: %s  [%s]' % (f, m, cat.short(c))})
+    json.dump({'viol': viol, 'blocks': nblocks, 'runs': nruns, 'calls': len(cs), 'needles': nneedles, 'fns': sorted(fns), 'overlap_runs': nov, 'overlap_calls': len(oc)}, open(out, 'w'))
     return 0
 
 def run(tier):
@@ -232,7 +299,8 @@ def run(tier):
         for v in d['viol']:
             chk.violation(v['key'], v['rec'], v['msg'] + ' [cfg %s]' % cfg)
         chk.part('released_blocks_' + cfg, states=d['blocks'], transitions=d['runs'], traces_validated_against_impl=d['runs'], evaluations=d['runs'],
-                 distinct_nontrivial=d['calls'], functions=len(d['fns']), needle_windows=d['needles'])
+                 distinct_nontrivial=d['calls'], functions=len(d['fns']), needle_windows=d['needles'], overlap_placement_runs=d.get('overlap_runs', 0),
+                 overlap_placement_calls=d.get('overlap_calls', 0))
         for f in d['fns']:
             chk.outcome(f)
     chk.sample({'fn': 'beltCBCEncr', 'exits': ['success', 'allocation 1/1 failed'], 'needles': ['key windows', 'expanded key windows'], 'blob page sizes': CFGS[tier]})
@@ -248,6 +316,12 @@ def run(tier):
 def replay(rec):
     global CFG
     corpora.load_all()
+    if rec.get('kind') == 'wipe-overlap':
+        CFG = rec.get('cfg', 'asan')
+        r = vf.pmap(run_overlap, [(rec['fn'], cat.dec_case(rec['case']))], nproc=1)[0]
+        if isinstance(r, dict):
+            return C07.classify(r.get('stderr', '') or r.get('crash', ''))[1]
+        return r[0][0] if r[0] else None
     if rec.get('kind') != 'wipe':
         return None
     CFG = rec.get('cfg', 'asan')
